@@ -187,6 +187,44 @@ func init() {
 		st.ghost["abstractStrings"] = Bool{tTrue}
 		return nil
 	}
+	// vFresh: nondeterministic bytes of a concrete length that are not harness inputs (model-internal randomness)
+	harnessAPI["vFresh"] = func(e *Engine, st *State, a []Value, ci ssa.CallInstruction) Value {
+		name := e.cstr(st, a[0])
+		n := st.concreteSize(a[1].(BV).T, "vFresh length")
+		k := st.counters["fresh:"+name]
+		st.counters["fresh:"+name] = k + 1
+		arr := Var(fmt.Sprintf("fresh_%s_%d", name, k), SArr)
+		ln := U64(uint64(n))
+		id := st.newBytes(arr, ln)
+		return Slice{Obj: id, Off: U64(0), Len: ln, Cap: ln}
+	}
+	harnessAPI["vFreshBool"] = func(e *Engine, st *State, a []Value, ci ssa.CallInstruction) Value {
+		name := e.cstr(st, a[0])
+		k := st.counters["freshb:"+name]
+		c := Var(fmt.Sprintf("freshb_%s_%d", name, k), SBool)
+		r := st.decide(c)
+		st.counters["freshb:"+name] = k + 1
+		return Bool{BoolC(r)}
+	}
+	// vUF(name, outLen, parts...): injective uninterpreted function of the exact byte strings
+	harnessAPI["vUF"] = func(e *Engine, st *State, a []Value, ci ssa.CallInstruction) Value {
+		name := e.cstr(st, a[0])
+		outLen := st.concreteSize(a[1].(BV).T, "vUF out length")
+		t := e.ufApply(st, name, outLen*8, a[2].(Slice))
+		arr := ZeroArr()
+		for i := 0; i < outLen; i++ {
+			hi := (outLen-i)*8 - 1
+			arr = Store(arr, U64(uint64(i)), Extract(t, hi, hi-7))
+		}
+		ln := U64(uint64(outLen))
+		id := st.newBytes(arr, ln)
+		return Slice{Obj: id, Off: U64(0), Len: ln, Cap: ln}
+	}
+	harnessAPI["vUFBool"] = func(e *Engine, st *State, a []Value, ci ssa.CallInstruction) Value {
+		name := e.cstr(st, a[0])
+		t := e.ufApply(st, name, 0, a[1].(Slice))
+		return Bool{t}
+	}
 	harnessAPI["vExpectPanic"] = func(e *Engine, st *State, a []Value, ci ssa.CallInstruction) Value {
 		st.expectPanic = true
 		return nil
@@ -263,6 +301,72 @@ func implementsError(t types.Type) bool {
 	}
 	return false
 }
+
+// ufApply builds name_<lens>(concat of parts). Parts must have concrete lengths (case split if small).
+// outBits == 0 gives a predicate. Injectivity: an inverse function per (name, length signature)
+// is axiomatised for each application; different length signatures use different symbols whose
+// ranges are kept apart by a tag function.
+func (e *Engine) ufApply(st *State, name string, outBits int, parts Slice) *Term {
+	np := st.concreteSize(parts.Len, "vUF parts")
+	var po *Obj
+	poff := 0
+	if parts.Obj != 0 {
+		po = st.obj(parts.Obj)
+		poff = st.concreteIndex(parts.Off, 1<<20, "vUF parts")
+	}
+	// decisions first: concretise every length
+	lens := make([]int, np)
+	for i := 0; i < np; i++ {
+		sl := po.Cells[poff+i].(Slice)
+		lens[i] = st.concreteSize(sl.Len, "vUF part length")
+	}
+	sig := name
+	var args []*Term
+	for i := 0; i < np; i++ {
+		sig += fmt.Sprintf("_%d", lens[i])
+		if lens[i] == 0 {
+			continue
+		}
+		sl := po.Cells[poff+i].(Slice)
+		arr := st.obj(sl.Obj).Arr
+		var bv *Term
+		for j := 0; j < lens[i]; j++ {
+			b := Select(arr, BVAdd(sl.Off, U64(uint64(j))))
+			if bv == nil {
+				bv = b
+			} else {
+				bv = Concat(bv, b)
+			}
+		}
+		args = append(args, bv)
+	}
+	if outBits == 0 {
+		if len(args) == 0 {
+			return Var("ufp_"+sig, SBool)
+		}
+		return UF("ufp_"+sig, SBool, args...)
+	}
+	var t *Term
+	if len(args) == 0 {
+		t = Var("uf_"+sig, SBV(outBits))
+	} else {
+		t = UF("uf_"+sig, SBV(outBits), args...)
+	}
+	// injectivity: inverse per argument, and a tag that separates length signatures
+	for i, a := range args {
+		inv := UF(fmt.Sprintf("ufinv%d_%s", i, sig), a.S, t)
+		st.addPC(Eq(inv, a))
+	}
+	tagID, ok := ufTags[sig]
+	if !ok {
+		tagID = len(ufTags) + 1
+		ufTags[sig] = tagID
+	}
+	st.addPC(Eq(UF(fmt.Sprintf("uftag_%s_%d", name, outBits), SBV(16), t), BVC(16, uint64(tagID))))
+	return t
+}
+
+var ufTags = map[string]int{}
 
 // ---------- inputs
 
